@@ -38,6 +38,7 @@ def run(ctx):
     ctx.do(rule_one_writer_one_reader)
     ctx.do(rule_writer_accepts_what_encoders_send)
     ctx.do(rule_reader_reads_the_text_as_given)
+    ctx.do(rule_no_fieldwise_rebuild)
     ctx.do(rule_truncated_in_utc)
     ctx.do(rule_value_object)
     ctx.do(rule_state_keys_agree)
@@ -762,3 +763,21 @@ def rule_reader_reads_the_text_as_given(ctx, rule_id="C15.api-domain"):
               "the value strptime returned is shifted by arithmetic before it is used: the instant written is not the one the "
               "text denotes whenever the shift is wrong for the input (sign of the minutes of a negative offset, ...)", file=rel,
               line=calls[0].lineno, function=fi.qualname, expected="the parsed value gets tzinfo=UTC and nothing else", found=found2)
+
+
+def rule_no_fieldwise_rebuild(ctx, rule_id="C15.utc"):
+    """A datetime given by the caller is converted to UTC AS IT IS.  Rebuilding it first from its fields
+    (datetime(v.year, v.month, ..., v.tzinfo)) drops what the fields do not carry -- the PEP 495 `fold` bit that tells the two
+    readings of a repeated hour apart -- so the later of two instants is written an hour early, before the earlier one.  In
+    the reader no datetime constructor call takes attribute reads of the value as positional arguments."""
+    run = ctx.run
+    prog = ctx.prog
+    fi = prog.func(U + "::parse_into_datetime")
+    v = fi.params[0]
+    bad = [c for c in body_walk(fi.node) if isinstance(c, ast.Call) and norm(c.func).split(".")[-1] in ("datetime", "STIXdatetime")
+           and sum(1 for a_ in c.args if isinstance(a_, ast.Attribute) and norm(a_.value) == v) >= 3]
+    run.check(not bad, rule_id, key(fi.module.relpath, fi.qualname, "value-not-rebuilt-from-its-fields"),
+              "the given datetime is rebuilt from its fields before it is converted to UTC: `fold` is lost, so an ambiguous local "
+              "reading (the repeated hour at the end of DST) is taken for its first occurrence -- order is not preserved",
+              file=fi.module.relpath, line=bad[0].lineno if bad else fi.node.lineno, function=fi.qualname,
+              expected="<value>.astimezone(utc) on the value itself", found=[short(c, 80) for c in bad])
